@@ -1,30 +1,89 @@
 /-
-C17: behaviours of the modelled Rust code that deviate from (or are corner cases of) the
-prose property, proved about the model.  Each theorem names the Rust anchor; whether it is
-a defect is judged in the report, not here.
+C17: corner cases of the modelled Rust code, and the former findings F8, F9, F13..F17 as
+they behave with the fixes applied (fixes/fix-c17-*.diff).  Each theorem names the Rust
+anchor.  Before the fixes the model proved the opposite statements (panic on an unknown
+compression code / a short salt, `lock` created by a failed open, `clear_column` independent
+of `replay`, salt and version overwritten, `drop_last_column` on 257 columns deleting column
+0); the harness scenarios `findings` replay those inputs on the real crate.
 -/
 import Pdb.Props.C17
 
 namespace Pdb.C17
 
-/-! ### Panics instead of errors while reading metadata -/
+/-! ### F16 / F17: bad metadata is an error, not a panic -/
 
-/-- `from_string` panics (`panic!("Unknown compression.")` in `From<u8> for
-CompressionType`) on a well-formed text with a compression code outside 0..2. -/
-theorem finding_fromString_panics :
-    fromString t!"preimage: true, uniform: false, refc: false, compression: 3" = .panic := by
-  decide
+/-- F16 fixed: a compression code outside 0..2 makes `from_string` return `None`
+(-> `Corruption("Bad column metadata")`), it no longer reaches `From<u8>`'s panic. -/
+theorem fixed_F16_unknown_compression :
+    fromString t!"preimage: true, uniform: false, refc: false, compression: 3" = .none ∧
+    decodeMeta (joinLines [t!"version=8", t!"salt=" ++ hexEncode (List.replicate 32 0),
+      t!"col0=preimage: true, uniform: false, refc: false, compression: 3"]) =
+        .err .corruptionBadColumn := by
+  constructor
+  · decide
+  · decide +kernel
 
-/-- ... but an unparsable or out-of-`u8`-range code silently becomes `NoCompression`. -/
+/-- ... while an unparsable or out-of-`u8`-range code still silently becomes `NoCompression`. -/
 theorem finding_fromString_default :
     fromString t!"preimage: true, uniform: false, refc: false, compression: 256" =
       .ok ⟨true, false, false, .NoCompression, false, false, false, false⟩ := by
   decide
 
-/-- `load_metadata_file` panics (`copy_from_slice` length mismatch) on a salt that is valid
-hex but not 32 bytes long. -/
-theorem finding_decodeMeta_short_salt_panics : decodeMeta t!"version=8\nsalt=00ff" = .panic := by
+/-- F17 fixed: a salt that is valid hex but not 32 bytes long is `Corruption("Bad salt string")`. -/
+theorem fixed_F17_short_salt :
+    decodeMeta t!"version=8\nsalt=00ff" = .err .corruptionBadSalt := by
   decide
+
+/-- `from_string` never panics, hence neither does `load_metadata_file`. -/
+theorem fromString_ne_panic (s : Text) : fromString s ≠ .panic := by
+  intro h
+  simp only [fromString] at h
+  split at h
+  · cases h
+  · split at h
+    · cases h
+    · split at h
+      · cases h
+      · split at h <;> cases h
+
+theorem stepLine_ne_panic (st : MetaAcc) (l : Text) : stepLine st l ≠ .panic := by
+  unfold stepLine
+  intro h
+  split at h
+  · split at h
+    · split at h <;> cases h
+    · split at h
+      · split at h
+        · cases h
+        · split at h <;> cases h
+      · split at h
+        · split at h
+          · cases h
+          · cases h
+          · rename_i hp; exact fromString_ne_panic _ hp
+        · cases h
+  · cases h
+
+theorem decodeMeta_ne_panic (t : Text) : decodeMeta t ≠ .panic := by
+  have hfold : ∀ (ls : List Text) (st : MetaAcc), foldLines st ls ≠ .panic := by
+    intro ls
+    induction ls with
+    | nil => intro st h; simp [foldLines] at h
+    | cons l r ih =>
+      intro st h
+      simp only [foldLines] at h
+      split at h
+      · exact ih _ h
+      · cases h
+      · rename_i hp; exact stepLine_ne_panic _ _ hp
+  unfold decodeMeta
+  intro h
+  split at h
+  · split at h
+    · cases h
+    · split at h <;> cases h
+  · cases h
+  · rename_i hp; exact hfold _ _ hp
 
 /-- `load_metadata_file` ignores the number in `col<i>`: columns are taken in line order,
 and any key starting with `col` counts. -/
@@ -37,79 +96,83 @@ theorem finding_decodeMeta_ignores_index :
        ⟨false, true, false, .NoCompression, false, false, false, false⟩]⟩ := by
   decide +kernel
 
-/-! ### F9: a failed open of an existing directory without metadata creates `lock` -/
+/-! ### F9 fixed: a failed open of a directory without metadata creates nothing -/
 
-theorem finding_F9_open_creates_lock {β : Type} (replay : Dir β → Dir β)
+theorem fixed_F9_open_creates_nothing {β : Type} (replay : Dir β → Dir β)
     (requested : List ColumnOptions) (salt : Option (List Nat)) (fresh : List Nat) :
-    (openDb replay (some Dir.empty) requested salt false fresh).result = .err .databaseNotFound ∧
-    fsGet (openDb replay (some Dir.empty) requested salt false fresh).fs lockName =
-      some (.text []) := by
-  rw [openDb_no_metadata replay Dir.empty requested salt fresh rfl]
-  exact ⟨rfl, rfl⟩
+    openDb replay (some Dir.empty) requested salt false fresh =
+      ⟨.err .databaseNotFound, some (Dir.empty : Dir β)⟩ :=
+  openDb_no_metadata replay Dir.empty requested salt fresh rfl
 
-/-! ### F8: `clear_column` does not replay (or remove) pending logs -/
+/-! ### F8 fixed: `clear_column` replays pending logs first -/
 
-/-- `clear_column` is independent of `replay` (it never opens the database) and leaves every
-log file in place: records for the cleared column that were pending are still pending and
-are applied by the next open, to a column whose files were deleted. -/
-theorem finding_F8_clear_keeps_logs {β : Type} (fs : Option (Dir β)) (column i : Nat) :
-    fsGet (clearColumn fs column).fs (logName i) = fsGet fs (logName i) := by
-  have := (C17_admin_other_columns (fun d => d) fs [] none (.clear column)).2.2 i
-  simpa [applyAdmin, adminBase] using this
+/-- With loadable metadata and a column index in range `clear_column` succeeds, and what it
+leaves is the directory produced by a full open + close (`replay`: pending logs applied and
+removed) minus the files of that column. -/
+theorem fixed_F8_clear_replays {β : Type} (replay : Dir β → Dir β) (d : Dir β) (column : Nat)
+    {m : Metadata} (hm : loadMetadataFile (d metadataName) = .ok (some m))
+    (hc : column < m.columns.length) :
+    clearColumn replay (some d) column =
+      ⟨.ok (), some (dropFiles column (replay (ensureLock d)))⟩ := by
+  have hp : clearPrecheck replay (some d) m =
+      ⟨.ok (m.salt, m.version), some (replay (ensureLock d))⟩ := precheck_ok replay d _ hm
+  have hc' : ¬ column ≥ m.columns.length := Nat.not_le.mpr hc
+  simp only [clearColumn, hm, hc', if_false, hp]
 
-/-! ### F13 (new): administration calls overwrite the stored salt with `options.salt` -/
+/-! ### F13 / F14 fixed: salt and format version survive the administration calls -/
 
-/-- `DbInner::open` never compares `options.salt` with the stored salt (columns hash with the
-stored one, src/column.rs:479), but `precheck_column_operation` returns `options.salt` when
-it is set and `add_column` / `drop_last_column` / `reset_column(.., Some)` write it to the
-metadata file.  After the call every column is read with the new salt: keys of all hash
-columns written before are no longer found. -/
-theorem finding_F13_salt_overwritten {β : Type} (replay : Dir β → Dir β) (fs : Option (Dir β))
-    (requested : List ColumnOptions) (s : List Nat) (op : AdminOp) (cols : List ColumnOptions)
-    (hs : s.length = 32 ∧ ∀ b ∈ s, b < 256)
-    (hok : (applyAdmin replay fs requested (some s) op).result = .ok ())
-    (hcols : op.newColumns requested = some cols) :
-    ∃ m', loadMetadataFile (fsGet (applyAdmin replay fs requested (some s) op).fs metadataName) =
-        .ok (some m') ∧ m'.salt = s := by
-  obtain ⟨d, m, _, _, _, h⟩ := C17_admin_metadata replay fs requested (some s) op cols
-    (fun x hx => by cases hx; exact hs) hok hcols
-  exact ⟨_, h, rfl⟩
-
-/-- The precheck accepts the mismatching salt: with the stored columns requested it
-succeeds whatever `options.salt` is, and returns `options.salt`. -/
-theorem finding_F13_open_accepts_any_salt (s : List Nat) :
-    (precheck id (some exampleDir) exampleCols (some s)).result = .ok s := by
-  rw [example_precheck]; rfl
-
-/-! ### F14 (new): administration calls rewrite the version to `CURRENT_VERSION` -/
-
-/-- A database with stored version 4..7 is opened in its old format (`hash_key`,
-`is_multi` depend on `db_version`), but after `add_column` / `drop_last_column` /
-`reset_column(.., Some)` the metadata says `CURRENT_VERSION` although no file was converted. -/
-theorem finding_F14_version_bumped {β : Type} (replay : Dir β → Dir β) (fs : Option (Dir β))
-    (requested : List ColumnOptions) (op : AdminOp) (cols : List ColumnOptions)
-    (hok : (applyAdmin replay fs requested none op).result = .ok ())
+/-- Whatever `options.salt` the caller passes, a successful `add_column` /
+`drop_last_column` / `reset_column(.., Some)` leaves the stored salt and the stored format
+version in the metadata file. -/
+theorem fixed_F13_F14_salt_version_kept {β : Type} (replay : Dir β → Dir β)
+    (fs : Option (Dir β)) (requested : List ColumnOptions) (salt : Option (List Nat))
+    (op : AdminOp) (cols : List ColumnOptions)
+    (hok : (applyAdmin replay fs requested salt op).result = .ok ())
     (hcols : op.newColumns requested = some cols) :
     ∃ d m m', fs = some d ∧ loadMetadataFile (d metadataName) = .ok (some m) ∧
-      loadMetadataFile (fsGet (applyAdmin replay fs requested none op).fs metadataName) =
+      loadMetadataFile (fsGet (applyAdmin replay fs requested salt op).fs metadataName) =
         .ok (some m') ∧
-      m'.version = Pdb.Gen.CURRENT_VERSION ∧ m'.salt = m.salt := by
-  obtain ⟨d, m, hfs, hm, _, h⟩ := C17_admin_metadata replay fs requested none op cols
-    (fun x hx => by cases hx) hok hcols
-  exact ⟨d, m, _, hfs, hm, h, rfl, rfl⟩
+      m'.salt = m.salt ∧ m'.version = m.version ∧ m'.columns = cols := by
+  obtain ⟨d, m, hfs, hm, _, h⟩ := C17_admin_metadata replay fs requested salt op cols hok hcols
+  exact ⟨d, m, _, hfs, hm, h, rfl, rfl, rfl⟩
 
-/-- Such databases exist: version 5 metadata loads. -/
+/-- The precheck accepts any `options.salt` and returns the stored one. -/
+theorem fixed_F13_open_returns_stored_salt (s : Option (List Nat)) :
+    (precheck id (some exampleDir) exampleCols s).result = .ok (List.replicate 32 1, 8) := by
+  rw [example_precheck]
+
+/-- Databases of an older supported version exist: version 5 metadata loads. -/
 theorem finding_F14_old_version_loads :
     decodeMeta (encodeMeta 5 (List.replicate 32 1) exampleCols) =
       .ok ⟨List.replicate 32 1, 5, exampleCols⟩ :=
   C17_meta_roundtrip 5 _ _ (by decide) ⟨by decide, by decide⟩
 
-/-! ### F15 (new, corner case): `index as u8` in `drop_last_column` -/
+/-! ### F15 fixed: more than 256 columns -/
 
-/-- With 257 columns (nothing in `add_column` or `open` limits the count to 256)
-`drop_last_column` deletes the files of column 0, not of column 256. -/
-theorem finding_F15_drop_last_wraps (requested : List ColumnOptions)
-    (h : requested.length = 257) : AdminOp.dropLast.affected requested = some 0 := by
-  simp [AdminOp.affected, h]
+/-- `add_column` refuses a 257th column, and `drop_last_column` on more than 256 columns
+fails without deleting anything (before the fix it deleted the files of column 0). -/
+theorem fixed_F15_column_count {β : Type} (replay : Dir β → Dir β) (fs : Option (Dir β))
+    (requested : List ColumnOptions) (salt : Option (List Nat)) (new : ColumnOptions)
+    {x : List Nat × Nat} {d : Dir β}
+    (hp : precheck replay fs requested salt = ⟨.ok x, some d⟩) :
+    (requested.length ≥ 256 →
+      addColumn replay fs requested salt new = ⟨.err .invalidConfigTooManyColumns, some d⟩) ∧
+    (requested.length ≥ 257 →
+      dropLastColumn replay fs requested salt = ⟨.err .invalidConfigTooManyColumns, some d⟩ ∧
+      AdminOp.dropLast.affected requested = none) := by
+  obtain ⟨s, v⟩ := x
+  constructor
+  · intro h
+    rw [addColumn_ok replay fs requested salt new hp]
+    have : requested.length > 255 := by omega
+    simp [this]
+  · intro h
+    refine ⟨?_, ?_⟩
+    · rw [dropLastColumn_ok replay fs requested salt hp]
+      have h0 : requested.length ≠ 0 := by omega
+      have h1 : requested.length > 256 := by omega
+      simp [h0, h1]
+    · have h1 : requested.length > 256 := by omega
+      simp [AdminOp.affected, h1]
 
 end Pdb.C17
